@@ -287,7 +287,9 @@ static int rewrite_file (int cginp, const char *filename)
     input = get_cgnsio(cginp, 0); /* cgio_open_file may have moved iolist */
 
     ierr = recurse_nodes(cginp, input->rootid, cgout, output->rootid, 0, 0);
-    cgio_close_file (cgout);
+    /* the copy is complete only when its close succeeded (HDF5 writes its
+       metadata and truncates the file there, ADF flushes its buffer) */
+    if (cgio_close_file (cgout) && !ierr) ierr = get_error();
 
     if (ierr) {
         UNLINK(tmpfile);
